@@ -401,7 +401,7 @@ def _setup_process():
     # a shape such as tensor<99999999999xi8> must end in MemoryError, not in swapping the machine
     try:
         soft, hard = resource.getrlimit(resource.RLIMIT_AS)
-        want = 6 << 30
+        want = 4 << 30
         if soft == resource.RLIM_INFINITY or soft > want:
             resource.setrlimit(resource.RLIMIT_AS, (want, hard))
     except (ValueError, OSError):  # pragma: no cover
@@ -874,7 +874,7 @@ if __name__ != "__main__":
 
 def checks(h):
     _setup_process()
-    unit = h.scale(100, 2000)       # examples per weight unit and shard (weights sum to 26)
+    unit = h.scale(100, 1500)       # examples per weight unit and shard (weights sum to 26)
     passes = h.scale(1, 2)          # each pass allows MAX_ROUNDS more collect-then-shrink rounds
     # (c) quick: one 30 s campaign next to shard 0; thorough: one 8 min campaign next to every shard
     fuzz = None
@@ -1014,7 +1014,7 @@ def _fuzz_main(scratch, seconds, seed, stride):
 
     dump()
     argv = ["c07-fuzz", corpus_dir, f"-max_total_time={int(seconds)}", "-max_len=4096", f"-seed={int(seed)}",
-            "-dict=" + os.path.join(scratch, "tokens.dict"), "-rss_limit_mb=6000",
+            "-dict=" + os.path.join(scratch, "tokens.dict"), "-rss_limit_mb=4096",
             "-print_final_stats=0", "-verbosity=0", "-artifact_prefix=" + scratch + os.sep]
     atheris.Setup(argv, one_input)
     atheris.Fuzz()
